@@ -402,6 +402,36 @@ def tuple_eq_axioms():
     return ax
 
 
+list_diff = z3.Function("list_diff_at", *([HEAP_SORTS[n] for n in SPEC_HEAP] + [V, V, IntS]))
+
+
+def list_eq_axioms():
+    """Python == on two lists is structural: equal lengths and pairwise equal items (numbers by value, references: same object or
+    deep-equal).  Opt-in (sidecar `axioms("list_eq")`): deq is otherwise uninterpreted on lists."""
+    from .smt import typ as _typ, cid as _cid, sub as _sub
+    hs = [z3.Const("hq_%s" % n, HEAP_SORTS[n]) for n in SPEC_HEAP]
+    llen_, lel_ = hs[0], hs[1]
+    a, b = z3.Const("la!", V), z3.Const("lb!", V)
+    ra, rb = V.rv(a), V.rv(b)
+    i = z3.Int("li!")
+
+    def veq(x, y):
+        both_num = z3.And(smt.is_num(x), smt.is_num(y))
+        return z3.If(both_num, smt.num_real(x) == smt.num_real(y),
+                     z3.If(z3.And(is_ref(x), is_ref(y)), z3.Or(x == y, deq(*(hs + [x, y]))), x == y))
+    is_l = z3.And(is_ref(a), is_ref(b), _sub(_typ(ra), _cid("list")), _sub(_typ(rb), _cid("list")))
+    lhs = deq(*(hs + [a, b]))
+    d = list_diff(*(hs + [a, b]))
+    return [
+        z3.ForAll(hs + [a, b], z3.Implies(z3.And(is_l, lhs), llen_[ra] == llen_[rb]), patterns=[lhs]),
+        z3.ForAll(hs + [a, b, i], z3.Implies(z3.And(is_l, lhs, i >= 0, i < llen_[ra]), veq(lel_[ra][i], lel_[rb][i])),
+                  patterns=[z3.MultiPattern(lhs, lel_[ra][i]), z3.MultiPattern(lhs, lel_[rb][i])]),
+        z3.ForAll(hs + [a, b], z3.Implies(z3.And(is_l, z3.Not(lhs), a != b),
+                                          z3.Or(llen_[ra] != llen_[rb], z3.And(d >= 0, d < llen_[ra], z3.Not(veq(lel_[ra][d], lel_[rb][d]))))),
+                  patterns=[lhs]),
+    ]
+
+
 def eq_by_axioms(cls_name, attr):
     """a class whose __eq__ compares one attribute: deq on two instances is Python == of that attribute's values"""
     from .smt import typ as _typ, cid as _cid, sub as _sub
